@@ -78,6 +78,11 @@ def run(ctx):
                "(the interpreter pymbolic runs under), cross-checked against a "
                "frozen copy of the language-reference precedence table")
 
+    # the parser builds its trees with the overloaded operators (unary minus
+    # is -operand, sums and products are spliced by + and *): their rule
+    # instances are premises of "the tree means what Python means"
+    from .c03 import operator_rules
+    operator_rules(ctx, model)
     py_prec_crosscheck()
     ptab = extract_parser_table(model)
     parser = ModelParser(ptab)
